@@ -239,6 +239,8 @@ def explore_map(args):
                 out.append((enc_frames(nf), st[0], st[0], st[1], model_key(nf), impl_key(C, nf, st[0], st[1])))
         if negatives and do_neg:
             neg(C, P, frames, cur, nidx, counts, allowed, encf, curi)
+        if negatives:
+            neg_struct(C, P, frames, cur, nidx, counts, encf, curi)
     return fname, out, P
 
 
@@ -274,7 +276,77 @@ def neg(C, P, frames, cur, nidx, counts, allowed, encf, curi):
                   'from %s, segment %s matches no node in scan order, walker returned %s with segment errors %r' % (cur.path, '*'.join(flat), n2.get_path() if n2 is not None else None, codes))
 
 
+def neg_struct(C, P, frames, cur, nidx, counts, encf, curi):
+    """single structural faults at walker level, with exact expectations (C03 catalogue):
+       beyond-max   the innermost matched segment again when its count has reached max_use        -> lands on it, code 5
+       beyond-repeat the first segment of the innermost loop again when its instances reached repeat -> lands on it, code 4
+       skip-required a later sibling while a required sibling in between has not occurred          -> lands on it, code 3
+       not-used     a sibling the map marks N                                                       -> lands on it, code 2"""
+    loop, last, cnt = frames[-1]
+    ch = effc(loop)
+    stack, pos = gen.state_after(cur)
+    trials = []
+    c = ch[last]
+    if c.kind == 'seg' and not (loop.kind == 'loop' and last == 0) and G.maxrep(c) <= CAP_FINITE and cnt == G.maxrep(c):
+        trials.append(('beyond-max', c, '5'))
+    if loop.kind == 'loop' and len(frames) >= 2 and G.maxrep(loop) <= CAP_FINITE and frames[-2][2] == G.maxrep(loop) and ch[0].kind == 'seg':
+        trials.append(('beyond-repeat', ch[0], '4'))
+    seen_req = None
+    for j in range(last + 1, len(ch)):
+        k = ch[j]
+        if k.kind != 'seg':
+            if k.usage == 'R':
+                break
+            continue
+        if k.usage == 'N':
+            trials.append(('not-used', k, '2'))
+            continue
+        if seen_req is not None:
+            if k.pos == seen_req.pos:
+                continue          # same-position siblings may come in any order: nothing is missing yet
+            trials.append(('skip-required', k, '3'))
+            break
+        if k.usage == 'R':
+            seen_req = k
+    for kind, tgt, code in trials:
+        if tgt.id in ('ISA', 'GS', 'IEA', 'GE', 'ST', 'SE'):
+            continue
+        if kind == 'not-used':
+            import copy
+            forced = copy.copy(tgt); forced.usage = 'S'
+            try:
+                flat = gen.Doc_flat(gen.mkseg(forced, {}))
+            except gen.Ungeneratable:
+                continue
+        else:
+            flat = C.seg_for(tgt)
+        if flat is None:
+            continue
+        fm = gen.scan_from(stack, pos, flat)
+        if fm is None or fm[2] is not tgt:
+            continue             # grammar itself would assign another node: ambiguous, not a single fault
+        P.n += 1; P.transitions += 1
+        case = {'part': 'a', 'struct': kind, 'map': C.fname, 'frames': list(encf), 'cur': curi, 'nidx': nidx, 'counts': counts, 'target': C.gidx[id(tgt)]}
+        try:
+            (n2, pop, push), errh, cnt2 = do_walk(C, nidx, counts, flat)
+        except Exception as e:
+            P.bad('C02|a|neg|%s|%s raises %s@%s' % (C.fname, kind, type(e).__name__, core.where(e)), case, 'walk with %s raised %r' % ('*'.join(flat), e))
+            continue
+        codes = [e[0] for e in errh.err_seg]
+        P.counters['a:neg-' + kind] += 1
+        if n2 is None or n2.get_path().split('[')[0] != tgt.path or code not in codes:
+            P.bad('C02|a|neg|%s|%s not reported as code %s' % (C.fname, kind, code), case,
+                  'from %s, %s segment %s: walker returned %s with segment errors %r (expected node %s and code %s)'
+                  % (cur.path, kind, '*'.join(flat), n2.get_path() if n2 is not None else None, codes, tgt.path, code))
+
+
 def evaluate(case):
+    if case.get('struct'):
+        C = ctx(case['map'])
+        frames = dec_frames(C, [tuple(x) for x in case['frames']])
+        P = core.Part()
+        neg_struct(C, P, frames, C.gsegs[case['cur']], case['nidx'], case['counts'], tuple(tuple(x) for x in case['frames']), case['cur'])
+        return [(k, v[2]) for k, v in P.viol.items()]
     C = ctx(case['map'])
     frames = dec_frames(C, [tuple(x) for x in case['frames']])
     cur = C.gsegs[case['cur']]
